@@ -3,6 +3,7 @@ import Anysystem.Proofs.R4
 import Anysystem.Proofs.R5Snap
 import Anysystem.Proofs.R5Rel
 import Anysystem.Proofs.R5Main
+import Anysystem.Proofs.R6Demo
 #print axioms Anysystem.snapshot_first_offered
 #print axioms Anysystem.snapshot_timers_in_firing_order
 #print axioms Anysystem.snapshotSource_complete
@@ -21,3 +22,5 @@ import Anysystem.Proofs.R5Main
 #print axioms Anysystem.sim_run_covered_partial
 #print axioms Anysystem.sim_step_matched
 #print axioms Anysystem.R5MainDemo.demo_covered
+#print axioms Anysystem.sim_step_refines_run
+#print axioms Anysystem.R6Demo.drop_covered
